@@ -16,8 +16,19 @@ fn main() {
             "C02" => vh::c02::check(),
             "C03" => vh::c01::check("C03"),
             "C04" => vh::c04::check(),
+            "C09" => vh::c09::check(),
             _ => usage(),
         },
+        "child" => {
+            let idx: usize = args.get(3).and_then(|s| s.parse().ok()).unwrap_or(0);
+            match args[2].as_str() {
+                "c02" => vh::c02::child(idx),
+                "c04" => vh::c04::child(idx),
+                "c09s" => vh::c09::child_s(idx),
+                _ => usage(),
+            }
+            0
+        }
         "replay" => {
             let s = std::fs::read_to_string(&args[2]).expect("read replay file");
             let v: serde_json::Value = serde_json::from_str(&s).expect("json");
@@ -26,6 +37,7 @@ fn main() {
                 "c01" => vh::c01::replay(r),
                 "c02" => vh::c02::replay(r),
                 "c04" => vh::c04::replay(r),
+                "c09h" | "c09s" => vh::c09::replay(r),
                 _ => usage(),
             }
         }
